@@ -942,11 +942,18 @@ impl World {
             for idx in &remove_idx {
                 b = b.remove_member(*idx)?;
             }
+            if spec2.res_first {
+                for e in &extra.res_psk_epochs {
+                    b = b.add_resumption_psk(*e)?;
+                }
+            }
             for id in &spec2.ext_psks {
                 b = b.add_external_psk(mls_rs::psk::ExternalPskId::new(vec![b'k', *id]))?;
             }
-            for e in &extra.res_psk_epochs {
-                b = b.add_resumption_psk(*e)?;
+            if !spec2.res_first {
+                for e in &extra.res_psk_epochs {
+                    b = b.add_resumption_psk(*e)?;
+                }
             }
             if let Some(v) = spec2.gce {
                 b = b.set_group_context_ext(crate::oracles::gce_list(v))?;
